@@ -234,6 +234,47 @@ theorem stores_ahead_example :
       viewCold [.svc svcA, .pod p1, .pod p2, .slice s1both] := by
   decide +kernel
 
+/-! ## an update followed by the delete of the same object while the handlers lag (fix 225592b)
+
+The Update handler finds the object gone, the Delete handler sees only its last version.  The update is now handled
+with the object its event carries, so nothing derived from the earlier version stays behind. -/
+
+def svcB : Svc := { svcA with name := "b" }
+def epX : Ep := { ep "10.0.2.1" true false "" with target := none }
+def sX : Slice := { sliceOf "x-s1" [epX] with svc := "a" }
+
+/-- a slice relabelled and deleted inside one window: no entry under the previous Service -/
+theorem relabel_then_delete_in_window_example :
+    viewAfter [.svc svcA, .svc svcB, .slice sX, .hold, .slice { sX with svc := "b" }, .delSlice "n1" "x-s1", .release] =
+      viewCold [.svc svcA, .svc svcB] ∧
+    (run {} [.svc svcA, .svc svcB, .slice sX, .hold, .slice { sX with svc := "b" }, .delSlice "n1" "x-s1", .release]).c.cache = [] := by
+  decide +kernel
+
+/-- a cached pod changes its IP and is deleted inside one window: the pod cache is empty again; an IP change in the
+    same write that makes the pod not ready (fix ce324e1) likewise leaves nothing under the old IP -/
+theorem ip_change_then_delete_in_window_example :
+    (run {} [.pod p1, .hold, .pod { p1 with ip := "10.0.0.2" }, .delPod "n1" "p1", .release]).c.byIP = [] ∧
+    (run {} [.pod p1, .hold, .pod { p1 with ip := "10.0.0.2" }, .delPod "n1" "p1", .release]).c.ipBy = [] ∧
+    (run {} [.pod p1, .pod { p1 with ip := "10.0.0.2", ready := false }]).c.byIP = [] ∧
+    AllGood {} [] [] [.pod p1, .pod { p1 with ip := "10.0.0.2", ready := false }] := by
+  decide +kernel
+
+/-- the namespace annotation is removed and the namespace deleted inside one window: the Service loses PreferClose -/
+theorem ns_unannotate_then_delete_in_window_example :
+    viewAfter [.ns { name := "n1", td := true }, .svc svcA, .hold, .ns { name := "n1", td := false }, .delNs "n1", .release] =
+      viewCold [.svc svcA] := by
+  decide +kernel
+
+/-- the controller owner reference of a pod changes in place (fix 585b3d0): the endpoint gets the new workload name -/
+def p1owned : Pod := { p1 with labels := [("app", "a"), ("@owner", "ss1")] }
+
+theorem owner_change_example :
+    AllGood {} [] [] [.svc svcA, .pod p1owned, .slice s1, .pod p1] ∧
+    viewAfter [.svc svcA, .pod p1owned, .slice s1, .pod p1] = viewCold [.svc svcA, .pod p1, .slice s1] ∧
+    (viewAfter [.svc svcA, .pod p1owned, .slice s1]).map (·.eps.map (·.workload)) = some ["ss1"] ∧
+    (viewAfter [.svc svcA, .pod p1owned, .slice s1, .pod p1]).map (·.eps.map (·.workload)) = some ["p1"] := by
+  decide +kernel
+
 /-! ## the full statement is false for the controller as it is: witnesses (known findings)
 
 `FullStatement`: every history ends like a cold start on its final objects.  The witnesses below are
